@@ -569,6 +569,11 @@ func (e *v12Emitter) pair(id string, r *verifh.Rand, ours, peer *ndp.RouterAdver
 	e.emit(id+"-self", 0, ours, image, self, v12Direct(ours, image), append([]string{"order:ours-image"}, tags...))
 	if viaHandle {
 		times := 1 + r.Intn(2)
+		if r.Chance(4) {
+			// the same RA from the same router for the 101st, 150th, 1000th time in a row: every reception is
+			// reported in full (log lines, counters, hook), however often it was seen before
+			times = verifh.Pick(r, []int{101, 150, 1000})
+		}
 		o, built, err := v12ViaHandle(v12RawConfig(ours), theirs, times)
 		if err != nil {
 			e.out.Emit(verifh.Case{ID: id + "-h", ImplViolation: "Advertiser.handle failed on a router advertisement: " + err.Error(),
